@@ -254,6 +254,14 @@ def check(recipe) -> list[Fail]:
         from molli.chem import Bond, BondType
         b0 = src.bonds[recipe["parallel"] % src.n_bonds]
         src.extend_bonds([Bond(b0.a2, b0.a1, label="par", btype=BondType.H_Donor if b0.btype != BondType.H_Donor else BondType.Aromatic, attrib={"second": [1, 2]})])
+    if recipe.get("rich") and getattr(src, "n_atoms", 0):
+        # attribute values of the richer standard types (in-memory copies only: the library encoders of C01 do not know them)
+        import collections
+        src.atoms[0].attrib["counts"] = collections.Counter({"C": 2, "H": 5})
+        src.atoms[-1].attrib["ordered"] = collections.OrderedDict([("b", [1, 2]), ("a", {"deep": (3, 4)})])
+        if hasattr(src, "attrib") and isinstance(src.attrib, dict):
+            src.attrib["tags"] = {"x", "y"}
+            src.attrib["by_el"] = collections.defaultdict(list, {"C": [0, 1]})
     tag = route.split(":")[0].replace("+", "_")   # root causes are keyed by route kind; classes go into the detail
     who = f"[{src_cls} -> {route}] "
     wrapped = bool(recipe.get("wrapped")) and src_cls in ("Structure", "Molecule") and src.n_atoms > 0
@@ -299,7 +307,25 @@ def check(recipe) -> list[Fail]:
         elif route == "pickle":
             cp = pickle.loads(pickle.dumps(src))
         elif route == "deepcopy":
-            cp = _copy.deepcopy(src)
+            if recipe.get("bundle") and getattr(src, "n_atoms", 0):
+                # the object is deep-copied as part of a CONTAINER that also refers into it (a site, a bond, its ensemble): one deep copy is
+                # one world - the copied references point into the copied object
+                i_ = recipe["bundle"] % src.n_atoms
+                refs = {"obj": src, "atom": src.atoms[i_]}
+                if getattr(src, "n_bonds", 0):
+                    refs["bond"] = src.bonds[recipe["bundle"] % src.n_bonds]
+                if owner is not None:
+                    refs["owner"] = owner
+                b2 = _copy.deepcopy(refs)
+                cp = b2["obj"]
+                if b2["atom"] is not cp.atoms[i_]:
+                    return [Fail("deepcopy-of-a-container-splits-object-and-reference:atom", f"{who}atom {i_} referenced next to the object is not atom {i_} of the copied object (parent {b2['atom'].parent!r})")]
+                if "bond" in refs and b2["bond"] is not cp.bonds[recipe["bundle"] % src.n_bonds]:
+                    return [Fail("deepcopy-of-a-container-splits-object-and-reference:bond", who)]
+                if owner is not None and not any(a_ is cp.atoms[0] for a_ in b2["owner"].atoms[:1]):
+                    return [Fail("deepcopy-of-a-container-splits-object-and-reference:ensemble", f"{who}the copied conformer is not a view of the copied ensemble")]
+            else:
+                cp = _copy.deepcopy(src)
         elif route in ("concat", "or", "concat3"):
             other, _ = build("Structure", recipe["mol2"])
             if route == "concat3":
@@ -530,7 +556,7 @@ def strat(tier):
             "src_cls": src_cls, "mol": r, "mol2": draw(mol2), "route": draw(st.sampled_from(routes(src_cls))),
             "mut": draw(st.lists(_MUT, min_size=1, max_size=5)), "side": draw(st.sampled_from(["copy", "copy", "source"])),
             "wrapped": draw(st.sampled_from([False, False, False, True])),
-            "parallel": draw(st.sampled_from([0, 0, 1, 2, 3])),
+            "parallel": draw(st.sampled_from([0, 0, 1, 2, 3])), "rich": draw(st.sampled_from([False, False, True])), "bundle": draw(st.sampled_from([0, 0, 1, 2, 5])),
         }
 
     return case()
